@@ -42,11 +42,13 @@ type Feat struct {
 	Validate     bool `json:"validate"` // target rejects manifests with missing references
 	LocStyle     int  `json:"loc_style"`
 	ChunkMin     int  `json:"chunk_min"`
+	// the first k cross-repository mount requests are declined, later ones granted (a mount policy that depends on the blob / the moment)
+	MountRefuseFirst int `json:"mount_refuse_first,omitempty"`
 }
 
 func (f Feat) Features() rm.Features {
 	return rm.Features{MountGrant: f.MountGrant, AnonMountStatus: f.AnonMount, HeadNoDigest: f.HeadNoDigest, Referrers: f.Referrers,
-		ReferrersPage: f.RefPage, TagPage: f.TagPage, TagDelete: f.TagDelete, ValidateManifest: f.Validate, LocStyle: f.LocStyle, ChunkMin: f.ChunkMin}
+		ReferrersPage: f.RefPage, TagPage: f.TagPage, TagDelete: f.TagDelete, ValidateManifest: f.Validate, LocStyle: f.LocStyle, ChunkMin: f.ChunkMin, MountRefuseFirst: f.MountRefuseFirst}
 }
 
 // Pre is the pre-existing target state.
@@ -88,6 +90,10 @@ type Case struct {
 	// what the same client did before the copy: "" nothing | inspect (get the source manifest and, for an index,
 	// each child by digest) | prior-copy (copied the image to a third repository of the source registry)
 	Warm string `json:"warm,omitempty"`
+	// the caller's context is cancelled when the k-th request of the copy (1-based) arrives; with CancelMid the
+	// body of that response stalls after its first byte and the cancellation comes while it is streaming
+	CancelAt  int  `json:"cancel_at,omitempty"`
+	CancelMid bool `json:"cancel_mid,omitempty"`
 }
 
 // DelayTable are the latencies a plan chooses from.
@@ -107,6 +113,7 @@ const (
 type GenOptions struct {
 	Pairings  []string
 	NoOptions bool // default copy options only (C14)
+	Cancel    bool // draw a cancellation of the caller's context during the copy (C03: a nil return must still mean a complete image)
 	Img       imggen.Options
 	NoDelays  bool
 }
@@ -117,6 +124,14 @@ func DefaultGen() GenOptions {
 }
 
 func genFeat(t *rapid.T, label string) Feat {
+	f := genFeatBase(t, label)
+	if f.MountGrant && rapid.IntRange(0, 3).Draw(t, label+"_mrf") == 0 {
+		f.MountRefuseFirst = rapid.IntRange(1, 3).Draw(t, label+"_mrfk")
+	}
+	return f
+}
+
+func genFeatBase(t *rapid.T, label string) Feat {
 	return Feat{
 		MountGrant:   rapid.Bool().Draw(t, label+"_mount"),
 		AnonMount:    rapid.SampledFrom([]int{0, 0, 201, 405}).Draw(t, label+"_anon"),
@@ -193,6 +208,10 @@ func Gen(t *rapid.T, o GenOptions) Case {
 	c.SrcForm = rapid.SampledFrom([]string{"", "", "", "", "digest", "tag+digest"}).Draw(t, "srcform")
 	c.Cache = rapid.IntRange(0, 2).Draw(t, "cache") == 0
 	c.Warm = rapid.SampledFrom([]string{"", "", "", "inspect", "prior-copy"}).Draw(t, "warm")
+	if o.Cancel && rapid.IntRange(0, 5).Draw(t, "cancel") == 0 {
+		c.CancelAt = rapid.IntRange(1, 40).Draw(t, "cancel_at")
+		c.CancelMid = rapid.Bool().Draw(t, "cancel_mid")
+	}
 	return c
 }
 
@@ -207,6 +226,9 @@ func (c Case) ClientClasses() []string {
 	}
 	if c.Cache && c.Warm != "" {
 		out = append(out, "client:cache+warm")
+	}
+	if c.CancelAt > 0 {
+		out = append(out, map[bool]string{false: "caller:cancels-on-arrival-of-a-request", true: "caller:cancels-while-a-body-streams"}[c.CancelMid])
 	}
 	return out
 }
@@ -486,6 +508,32 @@ func (e *Env) ImageOpts() []regclient.ImageOpts {
 func (e *Env) Copy(ctx context.Context) (err error, timedOut bool) {
 	ctx, cancel := context.WithTimeout(ctx, 60*time.Second)
 	defer cancel()
+	if e.C.CancelAt > 0 {
+		// the caller gives up (context.Canceled, as on SIGINT) at a generated point of the copy
+		cctx, ccancel := context.WithCancel(ctx)
+		defer ccancel()
+		ctx = cctx
+		seq := e.WarmRequests + e.C.CancelAt - 1
+		if e.C.CancelMid {
+			f := rm.NewFault("stall")
+			f.AtSeq, f.At = seq, 1
+			e.M.AddFault(f)
+		}
+		prev := e.M.OnArrive
+		e.M.OnArrive = func(x *rm.Entry) {
+			if prev != nil {
+				prev(x)
+			}
+			if x.Seq == seq {
+				if e.C.CancelMid {
+					time.AfterFunc(10*time.Millisecond, ccancel)
+				} else {
+					ccancel()
+				}
+			}
+		}
+		defer func() { e.M.OnArrive = prev }()
+	}
 	err = e.RC.ImageCopy(ctx, e.SrcRef, e.TgtRef, e.ImageOpts()...)
 	if ctx.Err() == context.DeadlineExceeded {
 		return err, true
